@@ -26,16 +26,34 @@ fn main() {
                 }
             }
         }
+        for n in [66_000usize, 140_000] {
+            for wh in [Which::VsockRx, Which::Input, Which::Sound] {
+                if doc.part == format!("linear-run:{}:model:events={}", wh.name(), n) {
+                    std::process::exit(vlab::replay::replay_dfs(&doc, &move || c19::run_linear(TKind::Model, wh, n)));
+                }
+            }
+        }
         eprintln!("unknown part {}", doc.part);
         std::process::exit(2);
     }
     let mut c = Check::new("C19", args.tier, "model_checking");
-    c.rule = "deviation-bounded DFS: runs of 4x the queue size events through the vsock receive queue (size 8), the input event queue (size 32) and the sound event queue (size 32); defaults = the device uses the oldest posted buffer, bursts of 1, full-length writes; deviations (bounded per run) = any other posted buffer, any burst size up to the queue size, written lengths header-only / 1 payload byte. After each burst the driver polls until empty plus once. distinct = distinct observation signatures".into();
+    c.rule = "deviation-bounded DFS: runs of 4x the queue size events through the vsock receive queue (size 8), the input event queue (size 32) and the sound event queue (size 32); defaults = the device uses the oldest posted buffer, bursts of 1, full-length writes; deviations (bounded per run) = any other posted buffer, any burst size up to the queue size, written lengths header-only / 1 payload byte. After each burst the driver polls until empty plus once. Plus linear runs (parts linear-run:*): single deterministic histories of more than 65 536 events per queue and feature set with pseudo-randomly varied burst sizes, buffer choices and lengths, so that the 16-bit ring indices wrap; these are single executions, not explorations. distinct = distinct observation signatures".into();
     for (t, wh, n, dev) in parts(args.tier) {
         let part = format!("events:{}:{}:n={}:dev={}", wh.name(), t.name(), n, dev);
         let mut cfg = DfsConfig::new(&part, dev);
         cfg.wall_cap = Duration::from_secs(if args.tier == Tier::Quick { 25 } else { 1800 });
         let st = dfs::explore(&cfg, &move || c19::run(t, wh, n));
+        c.add_dfs(&part, &st);
+    }
+    // Linear runs: one long deterministic history per queue and feature set (not an exhaustive
+    // exploration; reported as what it is). More than 65 536 events make both ring indices of the
+    // stocked queue wrap while the same few buffers are recycled thousands of times.
+    let n = if args.tier == Tier::Quick { 66_000 } else { 140_000 };
+    for wh in [Which::VsockRx, Which::Input, Which::Sound] {
+        let part = format!("linear-run:{}:model:events={}", wh.name(), n);
+        let mut cfg = DfsConfig::new(&part, 0);
+        cfg.wall_cap = Duration::from_secs(120);
+        let st = dfs::explore(&cfg, &move || c19::run_linear(TKind::Model, wh, n));
         c.add_dfs(&part, &st);
     }
     c.finish();
